@@ -39,17 +39,17 @@ COMPONENTS = {
     "stub": ["CAN backend (SimBus)", "python-can's cyclic send task (SimCyclicTask on the virtual clock, three flavours)", "can.Notifier"],
 }
 PROBES = ["sync-restart", "pdo-restart", "pdo-update-in-place", "pdo-update-restart", "hb-1017-sdo", "hb-1017-local", "hb-state-by-command",
-          "hb-state-by-assignment", "guard-restart", "disconnect", "disconnect-noncancelling-backend", "flavour-fixed", "flavour-modifiable-copy", "flavour-by-reference", "flavour-python-can-thread", "thread-task-frame-in-flight", "stop-refused-once"]
+          "hb-state-by-assignment", "guard-restart", "disconnect", "disconnect-noncancelling-backend", "flavour-fixed", "flavour-modifiable-copy", "flavour-by-reference", "flavour-python-can-thread", "thread-task-frame-in-flight", "stop-refused-once", "frames-with-own-cob-id-received"]
 # probes that mark an injected disturbance; the runner also counts them as fired faults in the evidence
 FAULT_PROBES = {'disconnect-noncancelling-backend': 'backend-leaves-tasks-on-shutdown', 'stop-refused-once': 'driver-refuses-task-stop-once'}
 
 FLAVOURS = ("by-reference", "modifiable-copy", "fixed-copy", "python-can-thread")
 CALLS = {
     "sync": ("start", "start-same", "stop", "stop"),
-    "pdo": ("start", "start-other-period", "stop", "set-var", "update", "set-var2"),
+    "pdo": ("start", "start-other-period", "stop", "set-var", "update", "set-var2", "start-same", "echo"),
     "hb": ("start", "start-other", "stop", "w1017-local", "w1017-zero-local", "w1017-sdo", "w1017-zero-sdo", "cmd", "assign"),
     "guard": ("start", "start-other", "stop", "stop"),
-    "rpdo": ("start", "start-other-period", "stop", "set-var", "update"),
+    "rpdo": ("start", "start-other-period", "stop", "set-var", "update", "start-same", "echo"),
     # node guarding of the same node id by a RemoteNode object on the OTHER network (a second master in the same process)
     "guard2": ("start", "start-other", "stop"),
 }
@@ -136,6 +136,7 @@ class W:
         rm.add_variable(0x2000)
         rm.add_variable(0x2001)
         rm.add_variable(0x2002)
+        rm.subscribe()
         self.rmap = rm
         m = self.local.tpdo[1]
         m.cob_id = 0x180 + self.nid
@@ -144,6 +145,7 @@ class W:
         m.add_variable(0x2003, 0, 1)    # a 1-bit field: everything behind it is off the byte boundary
         m.add_variable(0x2001)
         m.add_variable(0x2002)
+        m.subscribe()
         self.map = m
         self.models = {p: TaskModel() for p in PRODUCERS}
         self.models["sync"].can_id = 0x80
@@ -287,6 +289,29 @@ def _do(ctx, w, prod, callname, flavour):
             if before:
                 ctx.probe("pdo-restart")
             m.running, m.period, m.payload = True, per, bytes(mp.data)
+        elif callname == "start-same":
+            # restart without an argument: the period given at the last start() stays in force
+            if m.period is None:
+                _, exc = call(mp.start)
+                if not isinstance(exc, ValueError):
+                    ctx.violation("C17/start-without-period-accepted", "%s.start() without a period: %r" % (prod, exc))
+                exc = None
+            else:
+                _, exc = call(mp.start)
+                if before:
+                    ctx.probe("pdo-restart")
+                m.running, m.payload = True, bytes(mp.data)
+        elif callname == "echo":
+            # two frames with the map's own COB-ID arrive from the other side (an echo of its frames, a second producer): reception
+            # next to the transmission, which changes nothing about what the producer sends
+            # (only while the producer is transmitting: a map that is not transmitting measures the spacing of received frames
+            # into its `period` attribute by design, which a later start() without argument would then use)
+            src = w.sbus if prod == "rpdo" else w.mbus
+            for gap in ((0, 7 * MS) if before else ()):
+                ctx.run_for(gap)
+                w.ch.transmit(src, m.can_id, bytes([0xEE] * max(1, len(mp.data))), origin="inject")
+            ctx.run_for(1 * MS)
+            ctx.probe("frames-with-own-cob-id-received")
         elif callname == "stop":
             exc = _stop(ctx, w, prod, mp.stop, flavour, what)
             m.running = False
